@@ -127,11 +127,11 @@ func (m *Machine) binop(op token.Token, x, y value, xt types.Type, in ssa.Instru
 		return m.strBinop(op, x, y, in)
 	}
 	switch x.(type) {
-	case float64, *FRat, *FTab, FUnknown:
+	case float64, *FRat, *FTab, *FApx, FUnknown:
 		return m.floatBinop(op, x, y, in)
 	}
 	switch y.(type) {
-	case *FRat, *FTab, FUnknown:
+	case *FRat, *FTab, *FApx, FUnknown:
 		return m.floatBinop(op, x, y, in)
 	}
 	// bools
@@ -376,7 +376,7 @@ func (m *Machine) unop(in *ssa.UnOp, x value) value {
 			return -x
 		case *Term:
 			return m.ovf(m.tb.Neg(x), in)
-		case *FRat, *FTab:
+		case *FRat, *FTab, *FApx:
 			return m.floatBinop(token.SUB, float64(0), x, in)
 		}
 	case token.XOR:
